@@ -327,6 +327,17 @@ inline void DescribeLiveOf(std::uint64_t exec, char* out, std::size_t cap, int m
   }
 }
 
+// does `addr` lie inside a counted block that has been freed in this execution (and sits poisoned in the quarantine)?
+// For probe objects of the harnesses: a destructor that runs on such an address is a use after release.
+inline bool InReleasedBlock(const void* addr) noexcept {
+  auto a = reinterpret_cast<std::uintptr_t>(addr);
+  for (Node* n = g.quarantine.lnext; n != nullptr && n != &g.quarantine; n = n->lnext) {
+    auto b = reinterpret_cast<std::uintptr_t>(n->p);
+    if (a >= b && a < b + n->size) return true;
+  }
+  return false;
+}
+
 inline bool TakeError(char* out, std::size_t cap) noexcept {
   if (g.error[0] == '\0') return false;
   std::snprintf(out, cap, "%s", g.error);
